@@ -8,6 +8,7 @@
         from the slot state a fresh object has (`None` for a Variable, missing otherwise)
     coeffs EXPR (NAME…)               Py.extractAll              → (ok q…) | (err kind)
     coeffs_general EXPR (NAME…)       Py.coeffsGeneral (is_linear guard, then the walker only)
+    path EXPR (NAME…)                 which branch of extract_all_linear_coefficients the model takes (evidence)
     const EXPR                        Py.extractConstantTerm     → (ok q) | (err kind)
     coeff1 EXPR NAME                  Py.extractLinearCoefficient
     lp OBJ|none min|max ((EXPR <=|>=|==)…) ((NAME lb|none ub|none)…)   Py.extractLP
@@ -115,6 +116,25 @@ def showReads : Except MachErr (List Deg) → String
   | .error .outOfFuel => "err:outOfFuel"
   | .error .popEmpty => "err:popEmpty"
 
+/-- which branch of `extract_all_linear_coefficients` produces the result (evidence only) -/
+def extractPath (e : Expr) (V : List String) : String :=
+  if !isLinear e then "nonlinear"
+  else
+    match e with
+    | .vecSum vv =>
+      match coversAll V vv with
+      | .ok (some true) => "fast:VectorSum"
+      | _ => "general:VectorSum"
+    | .linComb _ (.vars vv) =>
+      match coversAll V vv with
+      | .ok (some true) => "fast:LinearCombination"
+      | _ => "general:LinearCombination"
+    | .bin op l r =>
+      match fastBinop V op l r with
+      | .ok (some _) => "fast:BinaryOp"
+      | _ => "general:BinaryOp"
+    | _ => "general"
+
 def handleAnalysis (cmd : String) (args : List Sexp) : Option String :=
   match cmd, args with
   | "deg", [.atom t, .atom k, e] =>
@@ -128,6 +148,10 @@ def handleAnalysis (cmd : String) (args : List Sexp) : Option String :=
   | "coeffs", [e, .list names] =>
     some <| match e.toExpr, toNames names with
       | some e, some V => showExceptRats (extractAll e V)
+      | _, _ => "bad-input"
+  | "path", [e, .list names] =>
+    some <| match e.toExpr, toNames names with
+      | some e, some V => extractPath e V
       | _, _ => "bad-input"
   | "coeffs_general", [e, .list names] =>
     some <| match e.toExpr, toNames names with
